@@ -1,0 +1,94 @@
+//go:build verif
+
+package compressor
+
+// Machine-checked contracts (comment-only; compiled only with -tags verif).
+// Ghost protocol: see /verif/govc/trusted/compress.spec.
+//   liberr == 1  <=> some library call reported an error during this call
+//   snap == 1     => the output buffer was read after the compressing writer was closed
+//   libout        = identity of the slice the library produced last
+
+//@ func (*compressor).decompressGzip(c, compressed) (out, err)
+//@   ensures[algo] err == nil ==> ghost("algo") == 1
+//@   property C24
+//@   requires ghost("liberr") == 0
+//@   ensures[no_hidden_error] ghost("liberr") == 1 ==> err != nil
+//@   ensures[lib_output] err == nil ==> ghost("libout") == sliceid(out)
+//@   modifies *
+
+//@ func (*compressor).decompressLZ4(c, compressed) (out, err)
+//@   ensures[algo] err == nil ==> ghost("algo") == 2
+//@   property C24
+//@   requires ghost("liberr") == 0
+//@   ensures[no_hidden_error] ghost("liberr") == 1 ==> err != nil
+//@   ensures[lib_output] err == nil ==> ghost("libout") == sliceid(out)
+//@   modifies *
+
+//@ func (*compressor).decompressSnappy(c, compressed) (out, err)
+//@   ensures[algo] err == nil ==> ghost("algo") == 3
+//@   property C24
+//@   requires ghost("liberr") == 0
+//@   ensures[no_hidden_error] ghost("liberr") == 1 ==> err != nil
+//@   ensures[lib_output] err == nil ==> ghost("libout") == sliceid(out)
+//@   modifies *
+
+//@ func (*compressor).decompressZstd(c, compressed) (out, err)
+//@   ensures[algo] err == nil ==> ghost("algo") == 4
+//@   property C24
+//@   requires ghost("liberr") == 0
+//@   ensures[no_hidden_error] ghost("liberr") == 1 ==> err != nil
+//@   ensures[lib_output] err == nil ==> ghost("libout") == sliceid(out)
+//@   modifies *
+
+//@ func (*compressor).compressGzip(c, data) (out, err)
+//@   ensures[algo] err == nil ==> ghost("algo") == 1
+//@   property C24
+//@   requires ghost("liberr") == 0 && ghost("flushed") == 0
+//@   ensures[no_hidden_error] ghost("liberr") == 1 ==> err != nil
+//@   ensures[closed_before_read] err == nil ==> ghost("snap") == 1
+//@   ensures[lib_output] err == nil ==> ghost("libout") == sliceid(out)
+//@   modifies *
+
+//@ func (*compressor).compressLZ4(c, data) (out, err)
+//@   ensures[algo] err == nil ==> ghost("algo") == 2
+//@   property C24
+//@   requires ghost("liberr") == 0 && ghost("flushed") == 0
+//@   ensures[no_hidden_error] ghost("liberr") == 1 ==> err != nil
+//@   ensures[closed_before_read] err == nil ==> ghost("snap") == 1
+//@   ensures[lib_output] err == nil ==> ghost("libout") == sliceid(out)
+//@   modifies *
+
+//@ func (*compressor).compressSnappy(c, data) (out, err)
+//@   ensures[algo] err == nil ==> ghost("algo") == 3
+//@   property C24
+//@   requires ghost("liberr") == 0
+//@   ensures[no_hidden_error] ghost("liberr") == 1 ==> err != nil
+//@   ensures[lib_output] err == nil ==> ghost("libout") == sliceid(out)
+//@   modifies *
+
+//@ func (*compressor).compressZstd(c, data) (out, err)
+//@   ensures[algo] err == nil ==> ghost("algo") == 4
+//@   property C24
+//@   requires ghost("liberr") == 0
+//@   ensures[no_hidden_error] ghost("liberr") == 1 ==> err != nil
+//@   ensures[lib_output] err == nil ==> ghost("libout") == sliceid(out)
+//@   modifies *
+
+// Dispatch: every supported type reaches its own codec pair and nothing else.
+//@ func (*compressor).Compress(c, data) (out, err)
+//@   property C24
+//@   requires ghost("liberr") == 0 && ghost("flushed") == 0
+//@   ensures[no_hidden_error] ghost("liberr") == 1 ==> err != nil
+//@   ensures[unknown_type] (old(c.compressorType) < 1 || old(c.compressorType) > 4) ==> err != nil
+//@   ensures[lib_output] err == nil ==> ghost("libout") == sliceid(out)
+//@   ensures[algo] err == nil ==> ghost("algo") == old(c.compressorType)
+//@   modifies *
+
+//@ func (*compressor).Decompress(c, data) (out, err)
+//@   property C24
+//@   requires ghost("liberr") == 0
+//@   ensures[no_hidden_error] ghost("liberr") == 1 ==> err != nil
+//@   ensures[unknown_type] (old(c.compressorType) < 1 || old(c.compressorType) > 4) ==> err != nil
+//@   ensures[lib_output] err == nil ==> ghost("libout") == sliceid(out)
+//@   ensures[algo] err == nil ==> ghost("algo") == old(c.compressorType)
+//@   modifies *
